@@ -413,6 +413,81 @@ def run_ro(case, ses):
                         report(ses, 'ro:extra-dependence', '%s: y[%d] depends on undeclared z[%d]' % (label, i, j), dict(k='ro', mask=name))
         if ok:
             ses.stats.nontrivial.add(label)
+    run_ro_interleaved(ses)
+
+
+def run_ro_interleaved(ses):
+    """Declaration histories of one rule: adapt() calls interleaved with declarations of further random variables (the
+    dependency table is widened between two calls).  Per history the coefficient of every (entry, random component) pair of
+    the rule's affine form is decided: identically zero where no dependence was declared, free where one was."""
+    from rsome import ro
+    z3 = z3mod()
+    # steps: ('a', entry|None, ('z'|'u'|'w', index|None)) = adapt ; ('r', name, size) = declare a random variable
+    histories = {
+        'y1:z01 | u | y0:z2': [('a', 1, ('z', slice(0, 2))), ('r', 'u', 2), ('a', 0, ('z', 2))],
+        'y1:z1 | u | y1:u0': [('a', 1, ('z', 1)), ('r', 'u', 2), ('a', 1, ('u', 0))],
+        'y0:z0 | u | y1:u1 | w | y0:w0': [('a', 0, ('z', 0)), ('r', 'u', 2), ('a', 1, ('u', 1)), ('r', 'w', 1), ('a', 0, ('w', 0))],
+        'y1:z | u | y:u': [('a', 1, ('z', None)), ('r', 'u', 2), ('a', None, ('u', None))],
+        'y2:z2 y1:z0 | u | y0:u1': [('a', 2, ('z', 2)), ('a', 1, ('z', 0)), ('r', 'u', 2), ('a', 0, ('u', 1))],
+    }
+    for name, steps in histories.items():
+        ny = 3 if name.startswith('y2') else 2
+        try:
+            _interleaved_one(ses, ro, z3, name, steps, ny)
+        except RuntimeError as e:
+            # a legal history refused by the real code is loud, not a silent violation: noted, the other histories go on
+            ses.stats.notes.append('ro-ldr history %s: refused by the real code (%s)' % (name, str(e)[:80]))
+
+
+def _interleaved_one(ses, ro, z3, name, steps, ny):
+    if True:
+        with quiet():
+            m = ro.Model()
+            m.dvar(2)
+            rv = {'z': m.rvar(3)}
+            y = m.ldr(ny)
+            dep = np.zeros((ny, 3), dtype=int)
+            for st in steps:
+                if st[0] == 'r':
+                    rv[st[1]] = m.rvar(st[2])
+                    dep = np.hstack((dep, np.zeros((ny, st[2]), dtype=int)))
+                else:
+                    _, yi, (zn, zi) = st
+                    r = rv[zn]
+                    (y if yi is None else y[yi]).adapt(r if zi is None else r[zi])
+                    cols = np.arange(r.first, r.first + r.size)
+                    cols = cols if zi is None else np.atleast_1d(cols[zi])
+                    for rr in (range(ny) if yi is None else [yi]):
+                        dep[rr, cols] = 1
+            ya = y.to_affine()
+        ses.stats.programs += 1
+        n = m.rc_model.last
+        nz = dep.shape[1]
+        X = pvars('X', (n,))
+        Zp = pvars('Z', (nz,))
+        label = 'ro-ldr history %s' % name
+        vals = rule_values(ya, X, Zp)
+        znames = ['Z[%d]' % j for j in range(nz)]
+        ok = True
+        for i in range(ny):
+            parts = vals[i].split(znames)
+            for j, zn in enumerate(znames):
+                c = parts.get((zn,), Poly())
+                env = {nm: z3.Real(nm) for nm in c.vars()}
+                if dep[i, j]:
+                    r_, _ = ses.expect_sat('%s y%d z%d declared' % (label, i, j), [c.z3(env) != 0], kind='declared-dependence-possible')
+                    if r_ == 'unsat':
+                        ok = False
+                        report(ses, 'ro:lost-dependence-history', '%s: declared dependence of y[%d] on random component %d missing'
+                               % (label, i, j), dict(k='ro', mask=name))
+                else:
+                    r_, _ = ses.oblige('%s y%d z%d undeclared' % (label, i, j), [], [c.z3(env) != 0], kind='undeclared-dependence-zero', twin=False)
+                    if r_ == 'sat':
+                        ok = False
+                        report(ses, 'ro:extra-dependence-history', '%s: y[%d] depends on undeclared random component %d'
+                               % (label, i, j), dict(k='ro', mask=name))
+        if ok:
+            ses.stats.nontrivial.add(label)
 
 
 # ------------------------------------------------------------------ (c) mixed partitions
